@@ -61,6 +61,7 @@ func (x *hW) prefix(k int) {
 		x.opRemoveEntity(0)
 		x.opNewEntity(0) // recycles the dead target's id
 		x.opNewEntityWith(A)
+		x.opNewEntityWith(B | 1<<uC) // a plain table created after the relation tables
 	case 9: // graph edges created by multi-component add and remove in one call
 		x.opNewEntityWith(A | B | 1<<uC)
 		x.opExchange(0, 0, A|B, 2)
